@@ -165,6 +165,10 @@ impl<SVC: Service> CloudServer<SVC> {
 
     /// Generate a random integer in (0..255) for use in probabalistic decisions.
     fn randint(&self) -> Result<u8> {
+        #[cfg(gothenburgbitfactory_taskchampion_verif)]
+        if let Some(draw) = verif::next_draw() {
+            return Ok(draw);
+        }
         use rand::SecureRandom;
         let mut randint = [0u8];
         rand::SystemRandom::new()
@@ -526,6 +530,10 @@ impl<SVC: Service + Send> Server for CloudServer<SVC> {
         Ok(Some((version_id, unsealed.payload)))
     }
 }
+
+#[cfg(gothenburgbitfactory_taskchampion_verif)]
+#[path = "verif.rs"]
+pub(in crate::server) mod verif;
 
 #[cfg(test)]
 mod tests {
